@@ -103,6 +103,16 @@ def limit_counter(P):
     return found, writers
 
 
+def _limit_env(f, sw, truth):
+    """initial flag environment on the edge of a limit switch: the tested local is known to be `truth` (so a later test of the same
+    flag, or of a copy made before, follows the same way)"""
+    d = f.blocks[sw]["term"]["discr"]
+    env = {}
+    if d["k"] in ("copy", "move") and not d["pl"]["p"] and d.get("ty") == "bool":
+        env[d["pl"]["l"]] = ("const", truth)
+    return env
+
+
 def run(R):
     P = R.prog
     R.rule("C07.exit", "from the reached_limit==true edge of every executor no input-consuming call is reachable (all input loops are left)")
@@ -121,7 +131,10 @@ def run(R):
         for sw in sws:
             t = f.blocks[sw]["term"]
             true_t = limit_edges(f).get(sw, t["otherwise"])
-            after = f.reachable_from(true_t)
+            # flag-sensitive: `let stop = output.reached_limit; .. if stop { break }` and outcome enums (`LineOutcome::Stop`) count
+            after = PR.flag_reach(f, true_t, _limit_env(f, sw, True))
+            if after is None:
+                after = f.reachable_from(true_t)
             cons = [c for c in L.consuming_calls(f) if c.bb in after]
             if cons:
                 R.violation("C07.exit", sn + "|continues",
@@ -135,8 +148,20 @@ def run(R):
             lp = PR.loop_of(f, e.bb)
             g = PR.discr_guard(f, PR.calls_matching(f, r"Try>::branch$")[0], "Continue") if False else None
             # paths from the execute call back to the loop header that avoid every reached_limit test
-            reach = f.reachable_from(e.bb, avoid=set(sws))
+            reach = PR.flag_reach(f, e.bb, avoid=set(sws))
+            if reach is None:
+                reach = f.reachable_from(e.bb, avoid=set(sws))
             hdr = lp[0]
+            if hdr in reach:
+                # the limit may be tested through a value computed from it (a flag / an outcome enum returned by an inlined helper):
+                # follow the false side of every limit switch flag-sensitively and see whether the header is reached without ANY limit
+                # switch on the way - i.e. cut the CFG at the limit switches only when they are really passed
+                passed = False
+                for sw_ in sws:
+                    if sw_ in f.reachable_from(e.bb) and hdr not in f.reachable_from(e.bb, avoid={sw_}):
+                        passed = True
+                if passed:
+                    reach = set()
             # only consider normal continuation (not error returns)
             if hdr in reach:
                 R.violation("C07.exit", sn + "|limit-test-skipped",
